@@ -500,7 +500,7 @@ Proof. intros b H. unfold add_module. destruct (d_export (i_decl i)); simpl; app
 
 Lemma create_keys st b d : keys_mono st (fst (create st b d)).
 Proof.
-  unfold create. destruct (negb (creatable d)); simpl; [apply km_refl|].
+  unfold create. destruct (negb (creatable d)); simpl; [apply km_same; reflexivity|].
   destruct (d_kind d) as [|[|u|m]|]; simpl; try apply add_module_keys.
   destruct (find u (iodict st)); simpl; [apply add_module_keys|].
   eapply km_trans; [|apply add_module_keys]. eapply km_trans; [apply (add_module_keys (io_name b) (new_inst io_decl None))|].
@@ -591,12 +591,12 @@ Lemma fold_all limit fuel : forall names st, LInv st -> stack st = [] ->
   (forall b, In b names -> has_key b (modules st) = true -> In (EEarly b) (trace st')).
 Proof.
   induction names as [|b r IH]; intros st L Hs NS; simpl in *.
-  - repeat split; auto. intros b [].
+  - split; [exact L|split; [exact Hs|intros b F; contradiction]].
   - assert (NS1 : stuck (gm_top limit fuel st b) = false).
     { destruct (stuck (gm_top limit fuel st b)) eqn:Q; auto.
       rewrite (fold_sticky limit fuel r _ Q) in NS. discriminate. }
     pose proof (gm_top_LInv limit fuel st b L Hs) as L1. pose proof (gm_top_stack limit fuel st b Hs NS1) as Hs1.
-    destruct (IH _ L1 Hs1 NS) as [L2 [Hs2 E2]]. repeat split; auto.
+    destruct (IH _ L1 Hs1 NS) as [L2 [Hs2 E2]]. split; [exact L2|split; [exact Hs2|]].
     intros x [X|X] K.
     + subst x. apply (ext_In (gm_top limit fuel st b)); [apply fold_gm_ext|].
       destruct (gm_top_early limit fuel st b K NS1) as [I|I]; auto.
@@ -619,9 +619,10 @@ Proof.
   destruct (init_once_when_idle _ L2 Hs2 m) as [R0 R1]. split; [|exact R0].
   intros K. assert (K1 : has_key m (modules st1) = true) by (apply (init_loop_keys limit fuel _ 0 st); exact K).
   pose proof (E2 m (has_key_In m _ K1) K1) as I. apply In_ce in I.
-  destruct (isinit st' m) eqn:Q.
+  unfold st' in *. clear st'.
+  match goal with |- isinit ?s m = true /\ _ => destruct (isinit s m) eqn:Q end.
   - split; auto.
-  - destruct (R0 Q) as [C _]. fold st' in I. lia.
+  - destruct (R0 eq_refl) as [C _]. rewrite C in I. lia.
 Qed.
 
 End Ranked.
